@@ -78,6 +78,9 @@ pub enum Call {
     MpRemove,
     MpAddOther,
     MpClear,
+    /// mp.insert_after(&bar, other) / insert_before: the shared bar is the anchor
+    MpInsertAfter,
+    MpInsertBefore,
 }
 
 #[derive(Debug, Clone, Serialize, Deserialize)]
@@ -142,6 +145,13 @@ fn exec(c: Call, pb: &ProgressBar, mp: &Option<MultiProgress>) {
         Call::MpClear => {
             if let Some(mp) = mp {
                 let _ = mp.clear();
+            }
+        }
+        Call::MpInsertAfter | Call::MpInsertBefore => {
+            if let Some(mp) = mp {
+                let other = ProgressBar::with_draw_target(Some(3), ProgressDrawTarget::hidden());
+                let other = if c == Call::MpInsertAfter { mp.insert_after(pb, other) } else { mp.insert_before(pb, other) };
+                other.tick();
             }
         }
     }
@@ -409,6 +419,8 @@ fn call_strategy() -> BoxedStrategy<Call> {
         1 => Just(Call::MpRemove),
         1 => Just(Call::MpAddOther),
         1 => Just(Call::MpClear),
+        1 => Just(Call::MpInsertAfter),
+        1 => Just(Call::MpInsertBefore),
     ]
     .boxed()
 }
@@ -424,10 +436,22 @@ fn sched_strategy(tier: Tier) -> BoxedStrategy<SchedCase> {
         proptest::option::weighted(0.3, 1u8..4),
         any::<u64>(),
     )
-        .prop_map(move |(ticker_on, in_multi, threads, main, timeout_budget, pct_depth, seed)| SchedCase {
+        .prop_map(move |(ticker_on, in_multi, mut threads, mut main, timeout_budget, pct_depth, seed)| {
+            // insert_before / insert_after take "an existing" member as the anchor: a program that also removes
+            // the shared bar from the MultiProgress must not use it as an anchor
+            let removes = |v: &Vec<Call>| v.iter().any(|c| *c == Call::MpRemove);
+            if removes(&main) || threads.iter().any(removes) {
+                for c in main.iter_mut().chain(threads.iter_mut().flatten()) {
+                    if matches!(c, Call::MpInsertAfter | Call::MpInsertBefore) {
+                        *c = Call::MpAddOther;
+                    }
+                }
+            }
+            SchedCase {
             prog: Prog { ticker_on, in_multi, threads, main, timeout_budget, pct_depth },
             seed,
             schedules,
+            }
         })
         .boxed()
 }
